@@ -13,7 +13,7 @@ Section Signed.
 
   (* the protected header {"alg": alg} as the parser reads it back *)
   Lemma header_roundtrip alg hb : jcs (JObj [("alg", JStr alg)]) = Some hb -> alg <> "" -> In alg (P_SignatureAlgorithms cfg) ->
-    exists h', parse_json hb = Some (JObj h') /\ has "alg" h' = true /\ headers_rule cfg h' /\ hb <> "".
+    exists h', parse_json hb = Some (JObj h') /\ has "alg" h' = true /\ headers_rule cfg h' /\ hb <> "" /\ dupfree (JObj h') = true.
   Proof.
     intros Ehb Hne Hin.
     assert (Whdr : wfnum (JObj [("alg", JStr alg)])) by (repeat constructor).
@@ -26,7 +26,7 @@ Section Signed.
     - exists alg. repeat split; auto. intros k Ik. left.
       assert (Ik' : In k (keys [("alg", JStr alg)])) by (eapply Permutation_in; [apply Permutation_sym; exact Pk|exact Ik]).
       destruct Ik' as [<-|[]]. reflexivity.
-    - intros ->. cbn in Hph. discriminate.
+    - split; [intros ->; cbn in Hph; discriminate|]. exact (single_alg_dupfree _ _ Pk Ela).
   Qed.
 
   (* the delta rule for the re-read delta of a built request *)
